@@ -190,6 +190,28 @@ pub fn run(tier: Tier) -> i32 {
     for s in HEADERED {
         sources.push((s.to_string(), true, json!({"driver":"header"})));
     }
+    // header × body: every header (target known / unknown, version met / unmet / malformed, both, unknown option) in
+    // front of a body that is fine or fails at one particular stage — when two things are wrong, both paths must
+    // report the same one
+    {
+        let headers = ["prql version:\"99.0\"", "prql version:\"0.1\"", "prql version:\"x.y\"", "prql target:sql.nosuch", "prql target:sql.postgres version:\"99\"", "prql target:sql.nosuch version:\"99\"", "prql nosuch:1", "prql target:sql.sqlite"];
+        let bodies = [
+            "from t | take 3",
+            "from t | derive x = frobnicate a",
+            "from t | select {a} | filter b > 1",
+            "let x = 5",
+            "from t | select {x = (a | date.to_text \"%Y\")}",
+            "from t | select {a ^ b}",
+            "from t | select {a, b = }",
+            "from t | take 1 2",
+            "from t | join (1 + 1) true",
+        ];
+        for h in headers {
+            for b in bodies {
+                sources.push((format!("{h}\n{b}"), true, json!({"driver":"header-x-body"})));
+            }
+        }
+    }
     // the syntax-tree space of C14 (every node kind, optional fields present and absent)
     let (cases, st) = crate::engine::collect(0, |c| crate::c14::gen_source(c, tier));
     for (s, ch) in cases {
